@@ -67,7 +67,10 @@ class Flow:
         res.returns = out.returns
         res.raises = out.raises
         if out.breaks or out.continues:
-            raise AnalysisError("break/continue outside loop")
+            if getattr(fn_node, "_loop_body", False):
+                res.normal = res.normal | out.breaks | out.continues
+            else:
+                raise AnalysisError("break/continue outside loop")
         return res
 
     # -- helpers
@@ -404,6 +407,7 @@ def event_paths(fn_node, event_of, branch_event=None, cap=10, may_raise=None, bo
     fl = Flow(transfer, may_raise=may_raise or calls_only_may_raise, on_raise=on_raise, refine=refine)
     if body is not None:
         wrapper = ast.FunctionDef(name="_", args=None, body=body, decorator_list=[], lineno=getattr(body[0], "lineno", 0), col_offset=0)
+        wrapper._loop_body = True
         res = fl.run(wrapper, {((), frozenset())})
     else:
         res = fl.run(fn_node, {((), frozenset())})
